@@ -6,11 +6,11 @@ from . import resolve_common as R, dep_common as D
 from .c10 import py_isinstance
 
 CLAIM = dict(
-    text="Coq theorems, for every hierarchy, method list and key, over ALL declared types of the modelled closure (classes, generics, unions, intersections, class-check types, value-dependent types): the handler a lookup returns -- direct call or recurse (C01_run_is_applicable) and call_next / f.next (C01_next_is_applicable) -- is a registered method whose positional arity and required keywords fit the call and whose declared type at every supplied position / name passes the subtype test for the argument's run-time type; a lookup reports 'No method' exactly when no method is applicable (C01_no_applicable_no_run); at the value level the checks generated for value-dependent annotations compute isinstance (C01_value_checks_are_isinstance) and a handler chosen by a dependent rank has all of them true (C10_chain_sound / C10_count_sound). Tie to /repo: generated methods record every parameter they receive; over static programs (optional positionals, keyword-only parameters, priorities, delegating with call_next and recurse) and dependent programs (Literal, Dependent, built-in value types, | and &, call_next with other values), every body entered is checked with Python's own isinstance against its annotations, its positional count and its required keywords (property oracle), and outcomes are compared with the model.",
+    text="Coq theorems, for every hierarchy, method list and key, over ALL declared types of the modelled closure (classes, generics, unions, intersections, class-check types, value-dependent types): the handler a lookup returns -- direct call or recurse (C01_run_is_applicable) and call_next / f.next (C01_next_is_applicable) -- is a registered method whose positional arity and required keywords fit the call and whose declared type at every supplied position / name passes the subtype test for the argument's run-time type, hence (joined with C13's meaning theorem) every argument of plain class lies in the documented meaning of the declared type at its position or name, for the direct call and the continuation (C01_run_args_in_meaning, C01_next_args_in_meaning); a lookup reports 'No method' exactly when no method is applicable (C01_no_applicable_no_run); at the value level the checks generated for value-dependent annotations compute isinstance (C01_value_checks_are_isinstance) and a handler chosen by a dependent rank has all of them true (C10_chain_sound / C10_count_sound). Tie to /repo: generated methods record every parameter they receive; over static programs (optional positionals, keyword-only parameters, priorities, delegating with call_next and recurse) and dependent programs (Literal, Dependent, built-in value types, | and &, call_next with other values), every body entered is checked with Python's own isinstance against its annotations, its positional count and its required keywords (property oracle), and outcomes are compared with the model.",
     note="Trusted: as C02 / C10. The entry point's own argument binding (which call shapes reach the table) is C03's subject.",
     technique="Coq proof (candidate set = arity filter + subclasscheck per slot; sort/_pull only select among candidates) + recording harness", design="6 C01")
 
-THEOREMS = ["C01_run_is_applicable", "C01_no_applicable_no_run", "C01_next_is_applicable", "C01_value_checks_are_isinstance"]
+THEOREMS = ["C01_run_is_applicable", "C01_no_applicable_no_run", "C01_next_is_applicable", "C01_run_args_in_meaning", "C01_next_args_in_meaning", "C01_value_checks_are_isinstance"]
 ASSUMPTIONS = []
 
 
